@@ -173,7 +173,7 @@ ITAC = ("Import ListNotations.\n"
         "first_s1_i1 second_s2_i2 first_s2_i1 second_s1_i2 first_s1_i2 second_s2_i1 first_i2_i1 second_s2_s1 "
         "jsi_norm grid_ws grid_wi axis_value lerp onat get_2d_indices get_1d_index g_cols g_rows g_x0 g_x1 g_y0 g_y1 arr nth gsum "
         "cre cmul csub cconj cnorm2 cpolar ofour otwo ROps o0 o1 oadd omul osub oopp odiv fst snd "
-        "Nat.modulo Nat.div Nat.divmod Nat.ltb Nat.leb Nat.sub Nat.mul Nat.add]; interval with (i_prec 120).\n")
+        "Nat.modulo Nat.div Nat.divmod Nat.ltb Nat.leb Nat.sub Nat.mul Nat.add]; interval with (i_prec 90).\n")
 
 
 def qarr(A):
@@ -271,7 +271,7 @@ def run(ctx):
             ctx.sample({"setup": o["setup"], "n": o["n"], "axes_mode": o["mode"], "v_ss": fl(o["vis"]["ss"][1]), "v_ii": fl(o["vis"]["ii"][1]),
                         "purity_sv": (fl(o["sv4"]) / fl(o["sv2"]) ** 2) if o.get("sv2") else None, "rates_tau0": [fl(o["series"][k][0]) for k in NAMES]})
     if os.path.exists(os.path.join(COQ, "Model", "Hom2.vo")):
-        correspondence(ctx, obs, 4 if quick else 6, 18 if quick else 48)
+        correspondence(ctx, obs, 4 if quick else 6, 6 if quick else 30)
     else:
         ctx.note("correspondence skipped: Model/Hom2.v did not compile")
     if (not proved or ctx.case_failures) and not any(v["found_input"] for v in ctx.violations):
